@@ -56,6 +56,9 @@ func (s modelSnap) changed(m *openfgav1.AuthorizationModel) string {
 func makeModularUnsorted(r *rand.Rand, m *openfgav1.AuthorizationModel) {
 	mods := []string{"", "zz", "aa", "mm"}
 	for _, td := range m.TypeDefinitions {
+		if td == nil {
+			continue // G1d leaves nil entries
+		}
 		if td.Metadata == nil {
 			td.Metadata = &openfgav1.Metadata{}
 		}
